@@ -10,15 +10,37 @@ scaffold that is absent from the map must be written to the assembly the stateme
   everything else                                         -> primary
 Known class "name-derived-haplotype" (README.md): an unplaced input scaffold whose name matches ^[^_]+_.+_\\d+$ with a
 prefix that is not a haplotype tag of the map is routed to an invented assembly.
+
+The destination is observed at two places (the property's observe_at):
+  1. the dict returned by BuildAssembly.assemblies_with_scaffolds_fused: the key under which every base is found AND the
+     `curated` flag of every assembly: Haplotig / Contaminant / FalseDuplicate are the only assemblies that are not
+     curated ("never to a curated assembly"); the primary assembly and every haplotype's assembly are curated;
+  2. for cases carrying "cli_out" (an --output file name), the files the real command line (pretext-to-asm, run in
+     process) writes into a temporary directory: every judged base is looked up in the written assembly files and the
+     NAME of the file(s) holding it is compared with the documented destination (--help, property statement):
+        Contaminant    -> the separate 'Contaminants' file   *.contaminants.*      (not *.curated.*, not *.primary.*)
+        FalseDuplicate -> the false-duplicates file          *.falseduplicates.*   (not *.curated.*, not *.primary.*)
+        Haplotig       -> the separate 'Haplotigs' file      *.haplotigs.* / *_haplotigs.*   (not *.primary.*)
+        primary        -> *.primary.curated.*  not carrying a haplotype's name
+        haplotype h    -> a separate curated file carrying the haplotype's name: *.<h>*.curated.* ; when the statement
+                          sends no sequence at all to the primary assembly (a map of haplotypes only), no judged
+                          sequence is misrouted and the returned dict has no primary assembly, the file is
+                          *.<h>.*.primary.curated.*   (<ToLID>.hap1.1.primary.curated.fa)
+     A name component is a '.'-separated part of the file name, compared in lower case.
 """
 
+import pathlib
 import random
+import tempfile
 from fractions import Fraction
 
+from . import cli_gen
 from . import pipeline_gen as pg
 from .common import Collector
 
 HAP_TAG_SETS = (("Hap1", "Hap2"), ("HAP1", "HAP2"), ("Mat", "Pat"), ("hapA", "hapB"), ("Maternal", "Paternal"))
+HAP_TAG_TRIPLES = (("Hap1", "Hap2", "Hap3"), ("Mat", "Pat", "Alt"))
+TAG_FILE_WORD = {"Haplotig": "haplotigs", "Contaminant": "contaminants", "FalseDuplicate": "falseduplicates"}
 
 
 def hap_by_name(name, hap_tags):
@@ -86,30 +108,127 @@ def name_derived(name, hap_tags):
     return bool(m) and m.group(1).lower() not in [h.lower() for h in hap_tags]
 
 
-def routing_problems(case, out):
-    """-> [(message, is_known_class)]"""
+def file_matches(fname, dest, hap_tags, haplotypes_only):
+    """does the NAME of a written assembly file say `dest`?  (rules: see the module docstring)"""
+    comps = fname.lower().split(".")
+    tag_words = [c for c in comps if c in TAG_FILE_WORD.values() or c.endswith("_haplotigs")]
+    primary_curated = any(a == "primary" and b == "curated" for a, b in zip(comps, comps[1:], strict=False))
+    if dest in pg.SPECIAL_TAGS:
+        word = TAG_FILE_WORD[dest]
+        if not any(c == word or (dest == "Haplotig" and c.endswith("_" + word)) for c in comps):
+            return False
+        if "primary" in comps or len(tag_words) != 1:
+            return False
+        return dest == "Haplotig" or "curated" not in comps
+    if tag_words:
+        return False
+    # the haplotypes the name carries: a component beginning with a haplotype's name (the longest such name)
+    haps = sorted((h.lower() for h in hap_tags), key=len, reverse=True)
+    named = {next((h for h in haps if c.startswith(h)), None) for c in comps} - {None}
+    if dest is None:
+        return primary_curated and not named
+    h = dest[1]
+    if named != {h}:
+        return False
+    if haplotypes_only:
+        return primary_curated and h in comps
+    return "curated" in comps
+
+
+def show_file_dest(dest, haplotypes_only):
+    if dest in pg.SPECIAL_TAGS:
+        return f"the '{TAG_FILE_WORD[dest]}' file"
+    if dest is None:
+        return "the primary file *.primary.curated.*"
+    return f"the curated file of haplotype {dest[1]!r} " + (f"*.{dest[1]}.*.primary.curated.*" if haplotypes_only else f"*.{dest[1]}*.curated.*")
+
+
+class FileIndex:
+    """which written file holds which bases: contig name -> [(start, end, file name)]"""
+
+    def __init__(self, files):
+        self.spans = {}
+        for fname, asm in files.items():
+            for sc in asm["scaffolds"]:
+                for r in sc["rows"]:
+                    if r[0] == "F":
+                        self.spans.setdefault(r[1], []).append((r[2], r[3], fname))
+
+    def where_of(self, toks):
+        """{file name (or '<nowhere>'): number of the sequence tokens found there}"""
+        runs = []  # maximal runs of consecutive positions of one contig: [name, lo, hi]
+        for t in toks:
+            if t[0] == "GAP":
+                continue
+            if runs and runs[-1][0] == t[0] and (t[1] == runs[-1][2] + 1 or t[1] == runs[-1][1] - 1):
+                runs[-1][1] = min(runs[-1][1], t[1])
+                runs[-1][2] = max(runs[-1][2], t[1])
+            else:
+                runs.append([t[0], t[1], t[1]])
+        counts = {}
+        for name, lo, hi in runs:
+            hits = []
+            for s, e, fname in self.spans.get(name, ()):
+                a, b = max(lo, s), min(hi, e)
+                if a <= b:
+                    counts[fname] = counts.get(fname, 0) + b - a + 1
+                    hits.append((a, b))
+            covered = 0
+            reach = lo - 1
+            for a, b in sorted(hits):
+                if b > reach:
+                    covered += b - max(a, reach + 1) + 1
+                    reach = b
+            if covered < hi - lo + 1:
+                counts["<nowhere>"] = counts.get("<nowhere>", 0) + hi - lo + 1 - covered
+        return counts
+
+
+def routing_problems(case, out, files=None):
+    """
+    out    the dict returned by assemblies_with_scaffolds_fused, as plain data
+    files  None, or {name of a written assembly file: {"scaffolds": [{"name", "rows"}]}} from the command line
+    -> [(message, is_known_class)], number of judged pieces / absent scaffolds
+    """
     inp = case["input"]
     margin = pg.margin_of(case["map"]["bpt"])
     in_toks = {s["name"]: pg.tokens(s["rows"]) for s in inp}
     first_contig = {s["name"]: next(r[1] for r in s["rows"] if r[0] == "F") for s in inp}
     idx = pg.OutIndex(out)
+    fidx = FileIndex(files) if files is not None else None
     routes, absent, hap_tags = expected_routes(case)
+    # a map of haplotypes only: the statement sends no sequence to the primary assembly
+    haplotypes_only = bool(hap_tags) and not any(d is None or d == "ambiguous" for _, _, d in routes) and not any(d is None for d in absent.values())
     problems = []
+    file_problems = []
     judged = 0
 
-    def where_of(toks):
+    def where_of(toks, index):
         keys = {}
         for t in toks:
             if t[0] == "GAP":
                 continue
-            locs = idx.where.get((t[0], t[1]), [])
+            locs = index.where.get((t[0], t[1]), [])
             for si, _ in locs:
-                keys.setdefault(idx.scaffolds[si][0], 0)
-                keys[idx.scaffolds[si][0]] += 1
+                keys.setdefault(index.scaffolds[si][0], 0)
+                keys[index.scaffolds[si][0]] += 1
             if not locs:
                 keys.setdefault("<nowhere>", 0)
                 keys["<nowhere>"] += 1
         return keys
+
+    def judge_files(what, toks, dest):
+        # only for sequence found under the right key of the dict: a base under a wrong key is reported above (with its
+        # class, if it has one) and the name of its file is then a consequence of that
+        if fidx is None:
+            return
+        names = fidx.where_of(toks)
+        loose = {n: c for n, c in names.items() if not file_matches(n, dest, hap_tags, False)}
+        strict = {n: c for n, c in names.items() if not file_matches(n, dest, hap_tags, haplotypes_only)}
+        if loose:
+            file_problems.append((False, f"{what} belongs in {show_file_dest(dest, False)} but the command line wrote {loose} bases to other files (files written: {sorted(files)})"))
+        elif strict:
+            file_problems.append((True, f"{what} belongs in {show_file_dest(dest, True)} but the command line wrote {strict} bases to other files (files written: {sorted(files)})"))
 
     for piece, k, dest in routes:
         if dest == "ambiguous":
@@ -118,31 +237,117 @@ def routing_problems(case, out):
         if not core:
             continue
         judged += 1
-        keys = where_of(core)
+        keys = where_of(core, idx)
         bad = {key: n for key, n in keys.items() if not key_matches(key, dest)}
+        what = f"interior of piece {piece[0]}:{piece[1]}-{piece[2]} {piece[4]} of Scaffold_{k}"
         if bad:
             psc = case["map"]["scaffolds"][k - 1]
             info = pg.read_scaffold_tags(psc)
             src0 = psc[0][0]  # the input scaffold whose name the unplaced Pretext scaffold is known by
             unplaced_untagged = not info["painted"] and not info["hap"] and not pg.piece_special(piece)
             known = unplaced_untagged and class_of(src0, first_contig[src0], dest, bad, hap_tags)
-            problems.append(
-                (f"interior of piece {piece[0]}:{piece[1]}-{piece[2]} {piece[4]} of Scaffold_{k} belongs in {show(dest)} but {bad} bases were written elsewhere", known)
-            )
+            problems.append((f"{what} belongs in {show(dest)} but {bad} bases were written elsewhere", known))
+        else:
+            judge_files(what, core, dest)
     for name, dest in absent.items():
         judged += 1
-        keys = where_of(in_toks[name])
+        keys = where_of(in_toks[name], idx)
         bad = {key: n for key, n in keys.items() if not key_matches(key, dest)}
+        what = f"input scaffold {name!r} is absent from the map and"
         if bad:
             known = class_of(name, first_contig[name], dest, bad, hap_tags)
-            problems.append((f"input scaffold {name!r} is absent from the map and belongs in {show(dest)} but {bad} bases were written elsewhere", known))
-    for key in pg.SPECIAL_TAGS:
-        if key in out and out[key]["curated"]:
-            problems.append((f"the {key} assembly is marked curated", False))
+            problems.append((f"{what} belongs in {show(dest)} but {bad} bases were written elsewhere", known))
+        else:
+            judge_files(what, in_toks[name], dest)
+    routed_right = not problems
+    # the curated flag of every returned assembly: the tag destinations are the only assemblies that are not curated
+    for key, asm in out.items():
+        if key in pg.SPECIAL_TAGS:
+            if asm["curated"]:
+                problems.append((f"the {key} assembly is marked curated", False))
+        elif not asm["curated"]:
+            which = "primary assembly" if key is None else f"assembly of haplotype {key!r}"
+            holds = sorted({sc["name"] for sc in asm["scaffolds"]})[:4]
+            problems.append((f"the {which} (scaffolds {holds}...) is flagged NOT curated in the dict returned by assemblies_with_scaffolds_fused: only the Haplotig / Contaminant / FalseDuplicate assemblies are not curated", False))
     lows = [k.lower() for k in out if isinstance(k, str)]
     if len(lows) != len(set(lows)):
         problems.append((f"two output assemblies for one haplotype: {list(out)}", False))
+    # the strict shape *.<h>.*.primary.curated.* is asked for only if the run really is a map of haplotypes only: nothing
+    # misrouted, and no primary assembly in the returned dict (a piece too short to be judged can still be misrouted - e.g.
+    # a 20 bp unplaced piece of the known class - and create a primary assembly the statement does not expect)
+    strict_applies = routed_right and None not in out
+    problems.extend((msg, False) for only_strict, msg in file_problems if strict_applies or not only_strict)
     return problems, judged
+
+
+# ---------------------------------------------------------------------------------------------- the command line
+
+
+def parse_tpf_rows(text):
+    """rows of a written TPF file, grouped into scaffolds (hand-written reader; no project code)"""
+    scaffolds = {}
+    pending = []
+    last = None
+    for line in text.splitlines():
+        if not line.strip() or line.startswith("#"):
+            continue
+        cols = line.split("\t")
+        if cols[0] == "GAP":
+            gap = ("G", int(cols[2]), {"TYPE-2": "scaffold", "TYPE-3": "contig"}.get(cols[1], cols[1]))
+            (scaffolds[last] if last is not None else pending).append(gap)
+            continue
+        name, rng_ = cols[1].rsplit(":", 1)
+        start, end = rng_.split("-")
+        rows = scaffolds.setdefault(cols[2], [])
+        if pending:
+            rows.extend(pending)
+            pending = []
+        rows.append(("F", name, int(start), int(end), {"PLUS": 1, "MINUS": -1}.get(cols[3], 0), ()))
+        last = cols[2]
+    return [{"name": n, "rows": r} for n, r in scaffolds.items()]
+
+
+def parse_agp_rows(text):
+    """rows of a written AGP file, grouped into scaffolds (hand-written reader; no project code)"""
+    scaffolds = {}
+    for line in text.splitlines():
+        if not line.strip() or line.startswith("#"):
+            continue
+        cols = line.rstrip("\n").split("\t")
+        rows = scaffolds.setdefault(cols[0], [])
+        if cols[4] in ("U", "N"):
+            rows.append(("G", int(cols[5]), cols[6]))
+        else:
+            rows.append(("F", cols[5], int(cols[6]), int(cols[7]), {"+": 1, "-": -1}.get(cols[8], 0), tuple(c for c in cols[9:] if c)))
+    return [{"name": n, "rows": r} for n, r in scaffolds.items()]
+
+
+def run_cli(case):
+    """
+    the case through the real command line (in process, temporary directory, removed): -a input (AGP or TPF text), -p
+    PretextView AGP, -o <tmp>/out/<case["cli_out"]>, -c prefix.  -> (exit code, error text, {assembly file name: rows})
+    """
+    out_name = case["cli_out"]
+    ext = out_name.rsplit(".", 1)[1].lower()
+    with tempfile.TemporaryDirectory() as d:
+        d = pathlib.Path(d)
+        if case.get("via") == "tpf" and pg.tpf_ok(case["input"]):
+            asm = d / "asm.tpf"
+            asm.write_text(pg.input_tpf_text(case["input"]))
+        else:
+            asm = d / "asm.agp"
+            asm.write_text(pg.input_agp_text(case["input"]))
+        (d / "pretext.agp").write_text(pg.pretext_agp_text(case["map"]))
+        out_dir = d / "out"
+        out_dir.mkdir()
+        args = ["-a", asm, "-p", d / "pretext.agp", "-o", out_dir / out_name, "-c", case.get("prefix", "SUPER_"), "--no-write-log", "-l", "ERROR"]
+        code, _, err, exc = cli_gen.run_pretext_to_asm(args)
+        files = {}
+        for p in sorted(out_dir.iterdir()):
+            if p.is_file() and p.name.lower().endswith("." + ext):
+                text = p.read_text()
+                files[p.name] = {"scaffolds": parse_tpf_rows(text) if ext == "tpf" else parse_agp_rows(text)}
+    return code, ((exc or "") + " " + (err or "")).strip()[-300:], files
 
 
 def class_of(scaffold_name, contig_name, dest, bad, hap_tags):
@@ -187,7 +392,13 @@ def check(case, col, known_failures=None):
             return None  # the tagging was rejected: an allowed outcome, nothing is routed
         col.fail(f"consistently tagged PretextView-model map: remapping crashed ({run.stage}): {run.error_text}", case)
         return None
-    problems, judged = routing_problems(case, run.out)
+    files = None
+    if case.get("cli_out"):
+        code, err, files = run_cli(case)
+        if code != 0:
+            col.fail(f"consistently tagged PretextView-model map which the library calls accept: pretext-to-asm -o {case['cli_out']} exits with {code}: {err}", case)
+            return None
+    problems, judged = routing_problems(case, run.out, files)
     if problems:
         classed = all(k for _, k in problems)
         classes = sorted({"name-derived-haplotype" if k is True else k for _, k in problems if k})
@@ -336,6 +547,116 @@ def make_case(rng, idx, short_names=True):
     return {"input": inp, "map": mp, "prefix": rng.choice(("SUPER_", "SUPER_", "chr")), "via": pg.pick_via(inp, idx), "mode": mode}
 
 
+CLI_OUT_NAMES = ("out.tpf", "idTest1.2.agp", "x.agp", "mVulVul1.3.tpf")
+
+
+def precede_cases(tier, rng):
+    """
+    ENUMERATED scope "a tagged piece comes before the first scaffold of an assembly": maps of 0, 1, 2 or 3 haplotypes
+    with 2 (no haplotype: 3) painted chromosomes per haplotype in alternating haplotype order (every rotation of the
+    haplotype order; quick: one order only), one unplaced scaffold per haplotype, at texel size 10 an input scaffold
+    shorter than a texel which is absent from the map, and ONE piece tagged Haplotig, Contaminant or FalseDuplicate in
+    every position:
+       own   j   a Pretext scaffold of its own (unpainted) in front of painted scaffold j (j = 0: the first Pretext
+                 scaffold of the map; j = number of painted scaffolds: between the chromosomes and the unplaced ones)
+       ownp  j   the same, the piece painted
+       tail  j   last piece of painted scaffold j            mid j   second of three pieces of painted scaffold j
+       cut   j   the second half of the input scaffold of painted scaffold j, cut off and left behind it as a tagged piece
+    each without and with Target mode (Target on every painted scaffold and on every second unplaced scaffold; tagged
+    pieces in front of the first Target carry their own tag, as --help asks).  Every case also runs the command line.
+    quick: texel size and output name/format rotate; thorough: texel sizes 1 and 10, 4 seeded repetitions of the tag
+    placements (all / first / last piece) and strands, every second one with a second tagged piece of another kind in a
+    seeded position.
+    """
+    quick = tier == "quick"
+    n = 0
+    for n_hap in (0, 1, 2, 3):
+        tag_sets = [()] if n_hap == 0 else [t[:n_hap] for t in (HAP_TAG_SETS if n_hap < 3 else HAP_TAG_TRIPLES)]
+        rotations = [0] if n_hap < 2 or quick else list(range(n_hap))
+        n_painted = 3 if n_hap == 0 else 2 * n_hap
+        places = [(kind, j) for kind in ("own", "ownp") for j in range(n_painted + 1)] + [(kind, j) for kind in ("tail", "mid", "cut") for j in range(n_painted)]
+        for rot in rotations:
+            for special in pg.SPECIAL_TAGS:
+                for place in places:
+                    for target in (False, True):
+                        for rep in range(1 if quick else 4):
+                            for bpt in ((1.0, 10.0)[n % 2],) if quick else (1.0, 10.0):
+                                n += 1
+                                haps = tag_sets[n % len(tag_sets)]
+                                second = None
+                                if not quick and rep % 2:
+                                    second = (rng.choice([s for s in pg.SPECIAL_TAGS if s != special]), rng.choice(places))
+                                yield precede_case(haps, rot, special, place, target, bpt, second, rng, n)
+
+
+def precede_case(haps, rot, special, place, target, bpt, second, rng, n):
+    n_hap = len(haps)
+    order = (list(haps[rot:] + haps[:rot]) * 2) if n_hap else [None] * 3
+    inp = []
+    counter = [0]
+
+    def new_scaffold(hap, lengths, gaps=None):
+        counter[0] += 1
+        i = counter[0]
+        name = f"{hap.upper()}_SCAFFOLD_{i}" if hap else f"scaffold_{i}"
+        s = pg.make_scaffold(name, lengths, [rng.choice((1, -1)) for _ in lengths], gaps, "fasta" if hap else rng.choice(("own", "fasta")), tag=str(i))
+        inp.append(s)
+        return s
+
+    def whole(s):
+        return pg.pieces_of(s, bpt, "floor", ())[0]
+
+    def tagged_plan(spec):
+        painted = spec[1][0] == "ownp"
+        src = new_scaffold(haps[0] if haps else None, [150])
+        # a painted tagged piece of a haplotype map also carries its haplotype's tag (Hap1 Painted Haplotig)
+        hap = haps[0] if haps and painted else None
+        return {"painted": painted, "hap": hap, "name_tag": None, "target": False, "pieces": [(whole(src), rng.choice((1, -1)), [spec[0]])]}
+
+    chrom_len = (400, 300, 250, 200, 180, 160)
+    plan = []
+    for j, h in enumerate(order):
+        s = new_scaffold(h, [chrom_len[j], 40] if j % 3 == 1 else [chrom_len[j]], [(10, "scaffold")] if j % 3 == 1 else None)
+        plan.append({"painted": True, "hap": h, "name_tag": None, "target": target, "pieces": [(whole(s), rng.choice((1, -1)), [])], "src": s})
+    unplaced = []
+    for k, h in enumerate(haps or (None, None)):
+        s = new_scaffold(h, [120])
+        unplaced.append({"painted": False, "hap": None, "name_tag": None, "target": target and k % 2 == 0, "pieces": [(whole(s), 1, [])]})
+    if bpt > 7:
+        new_scaffold(haps[-1] if haps else None, [7])  # shorter than a texel: absent from the map
+    inserts = {}
+    for spec in [(special, place)] + ([second] if second else []):
+        tag, (kind, j) = spec
+        if kind in ("own", "ownp"):
+            inserts.setdefault(j, []).append(tagged_plan(spec))
+        elif kind == "cut":
+            sc = plan[j]
+            s = sc["src"]
+            n_tex = pg.texels(pg.rows_len(s["rows"]), bpt, "floor")
+            pcs = pg.pieces_of(s, bpt, "floor", (n_tex // 2,))
+            if len(pcs) == 2 and sc["pieces"][0][0] == whole(s):  # not yet cut by an earlier tagged piece
+                sc["pieces"][0] = (pcs[0], sc["pieces"][0][1], [])
+                sc["pieces"].append((pcs[1], rng.choice((1, -1)), [tag]))
+        else:
+            sc = plan[j]
+            src = new_scaffold(sc["hap"], [150])
+            sc["pieces"].append((whole(src), rng.choice((1, -1)), [tag]))
+            if kind == "mid":
+                extra = new_scaffold(sc["hap"], [90])
+                sc["pieces"].append((whole(extra), rng.choice((1, -1)), []))
+    seq = []
+    for j in range(len(plan) + 1):
+        seq.extend(inserts.get(j, []))
+        if j < len(plan):
+            seq.append(plan[j])
+    seq.extend(unplaced)
+    for sc in seq:
+        sc.pop("src", None)
+    mp = pg.plan_to_map(seq, bpt, rng)
+    mode = ("single", "one", "two", "three")[n_hap]
+    return {"input": inp, "map": mp, "prefix": ("SUPER_", "chr")[n % 2], "via": ("agp", "tpf", "objects")[n % 3], "mode": mode, "cli_out": CLI_OUT_NAMES[n % len(CLI_OUT_NAMES)]}
+
+
 # hand-made minimal case that is always run: HAP1_3 begins with "<haplotype>_" but is written to the primary assembly
 FIXED_CASES = [
     {
@@ -360,32 +681,58 @@ def run(tier, seed, **opts):
         "any scaffold), haplotype tag sets Hap1/Hap2, HAP1/HAP2, Mat/Pat, hapA/hapB, Maternal/Paternal with input names "
         "<HAP>_SCAFFOLD_<n> in upper/lower/tag case (2 %: <HAP>_<n> or <HAP>_ctg<n>), tags on all/first/last piece; 1 % of single-haplotype input scaffolds carry "
         "names of the known class; oracle: destination of every piece interior and of every absent scaffold, base by "
-        "base; non-trivial = distinct completed case with >= 1 judged piece/scaffold and at least one tag besides Painted"
+        "base, under the keys of the returned dict; curated flag of every returned assembly (only the three tag "
+        "assemblies are not curated); PLUS an enumerated scope: one Haplotig/Contaminant/FalseDuplicate piece in every "
+        "position (own scaffold unpainted/painted in front of each painted scaffold, incl. first scaffold of the map; tail / "
+        "middle / cut-off piece of each painted scaffold) of maps of 0-3 haplotypes (every rotation of the haplotype order), "
+        "without and with Target mode; every enumerated case and every n-th seeded case is also run through the "
+        "pretext-to-asm command line (TPF or AGP output) and every judged base is looked up in the written files, whose "
+        "names must be the documented destination (*.contaminants.*, *.falseduplicates.*, *haplotigs.*, "
+        "*.primary.curated.*, *.<hap>.*.primary.curated.*); non-trivial = distinct completed case with >= 1 judged "
+        "piece/scaffold and at least one tag besides Painted"
     )
     n_cases = 4000 if tier == "quick" else 120000
-    stats = {"rejected_tagging": 0, "judged": 0, "single": 0, "one": 0, "two": 0}
+    cli_every = 25 if tier == "quick" else 40  # every n-th seeded case is also run through the command line
+    stats = {"rejected_tagging": 0, "judged": 0, "single": 0, "one": 0, "two": 0, "three": 0, "enumerated": 0, "enumerated_rejected": 0, "cli": 0}
     known_failures = {}
-    for i in range(-len(FIXED_CASES), n_cases):
+
+    def stream():
+        for c in FIXED_CASES:
+            yield "fixed", -1, c
+        for c in precede_cases(tier, random.Random(f"c09-precede-{seed}")):
+            yield "enumerated", -1, c
+        for i in range(n_cases):
+            c = make_case(rng, i)
+            if i % cli_every == 5:
+                c["cli_out"] = CLI_OUT_NAMES[(i // cli_every) % len(CLI_OUT_NAMES)]
+            yield "seeded", i, c
+
+    for family, i, case in stream():
         if col.full:
             break
-        case = FIXED_CASES[i] if i < 0 else make_case(rng, i)
         judged = check(case, col, known_failures)
         stats[case["mode"]] += 1
+        stats["cli"] += bool(case.get("cli_out"))
+        if family == "enumerated":
+            stats["enumerated"] += 1
+            stats["enumerated_rejected"] += judged is None
         if judged is None:
             stats["rejected_tagging"] += 1
         else:
             stats["judged"] += judged
         tagged = any(t != "Painted" for sc in case["map"]["scaffolds"] for p in sc for t in p[4])
-        col.case(pg.case_key(case), nontrivial=bool(judged) and tagged, sample=case if (judged and tagged and i % 1201 == 7) else None)
+        col.case(pg.case_key(case), nontrivial=bool(judged) and tagged, sample=case if (judged and tagged and (i % 1201 == 7 or stats["enumerated"] == 77)) else None)
     stats["known_class_cases"] = ", ".join(f"{'+'.join(k)}={len(v)}" for k, v in known_failures.items()) or "none"
     for lst in known_failures.values():
         col.failures.extend(lst[:3])
     return col.result(
         bounds=(
             "3-7 input scaffolds x <= 2 contigs, contig lengths {1,2,7,40,150,400}, texel sizes {1,2.5,10,33.3}, <= 2 cuts per "
-            f"scaffold, <= 4 painted scaffolds; {len(FIXED_CASES)} fixed hand-made case + {n_cases} seeded cases; pieces/absent scaffolds judged: {stats['judged']}; maps "
+            f"scaffold, <= 4 painted scaffolds; {len(FIXED_CASES)} fixed hand-made case + {stats['enumerated']} enumerated tagged-piece-position cases "
+            f"(all enumerated; {stats['enumerated_rejected']} of them rejected) + {n_cases} seeded cases; cases also run through the command line: {stats['cli']}; "
+            f"pieces/absent scaffolds judged: {stats['judged']}; maps "
             f"rejected with TaggingError/ChrNamerError (allowed, not judged): {stats['rejected_tagging']}; "
-            f"modes: single={stats['single']} one-haplotype={stats['one']} two-haplotype={stats['two']}; cases failing only in a "
+            f"modes: single={stats['single']} one-haplotype={stats['one']} two-haplotype={stats['two']} three-haplotype={stats['three']}; cases failing only in a "
             f"named class: {stats['known_class_cases']} (first 3 of each reported)"
         ),
         exhaustive=False,
